@@ -17,6 +17,16 @@ pub struct Item {
 }
 
 const SHARDS: usize = 256;
+/// Resident-set cap of one check (the sandbox has 62 GB and no swap).
+const RSS_CAP: u64 = 20 << 30;
+
+pub fn rss_bytes() -> u64 {
+    std::fs::read_to_string("/proc/self/statm")
+        .ok()
+        .and_then(|s| s.split_whitespace().nth(1).and_then(|p| p.parse::<u64>().ok()))
+        .map(|pages| pages * 4096)
+        .unwrap_or(0)
+}
 
 pub struct Visited {
     shards: Vec<Mutex<HashMap<u128, u8>>>,
@@ -271,6 +281,16 @@ pub fn explore(cfg: &Cfg, caps: &Caps) -> Stats {
                                 });
                             }
                             shared.stop.store(true, Ordering::Relaxed);
+                        }
+                        if n % 8192 == 0 {
+                            let rss = rss_bytes();
+                            if rss > RSS_CAP {
+                                let mut c = capped.lock().unwrap();
+                                if c.is_none() {
+                                    *c = Some(format!("memory cap reached ({} MiB resident)", rss >> 20));
+                                }
+                                shared.stop.store(true, Ordering::Relaxed);
+                            }
                         }
                     }
                     if !local.is_empty() {
